@@ -561,8 +561,10 @@ class GroupBy:
             return
 
         if self._group_key_pointers is not None:
+            # chunk-local code -1 (null key) must stay -1: p[-1] would be the last label of the chunk
             chunks = [
-                p[k] for p, k in zip(self._group_key_pointers, self._group_ikey.chunks)
+                np.where(np.asarray(k) < 0, -1, p[np.asarray(k)])
+                for p, k in zip(self._group_key_pointers, self._group_ikey.chunks)
             ]
             self._group_key_pointers = None
         elif keep_chunked:
